@@ -222,6 +222,7 @@ class World:
             "reclimit": sys.getrecursionlimit(),
             "filters_ok": warnings.filters is self.base_filters and list(warnings.filters) == self.base_filters_copy,
             "canary_redelivered": self.canary_hits > before,
+            "scipy_dg_entries": _scipy_delta_grad_entries(),
             "filters_mutated_by_optyx": self.filter_mutations.pop("optyx", 0),
             "filters_mutated_by_other": self.filter_mutations.pop("other", 0) + self.filter_mutations.pop("user", 0),
         }
@@ -636,6 +637,18 @@ class _Clock:
 
     def monotonic(self):
         return self._w.clock
+
+
+def _scipy_delta_grad_entries():
+    """How many 'delta_grad == 0.0' entries SciPy's modules hold in their once-per-location
+    registries (what the application has already been shown)."""
+    n = 0
+    for name, module in list(sys.modules.items()):
+        if name.startswith("scipy.optimize"):
+            reg = getattr(module, "__warningregistry__", None)
+            if reg:
+                n += sum(1 for k in reg if isinstance(k, tuple) and str(k[0]).startswith("delta_grad == 0.0"))
+    return n
 
 
 class _EvalProxy:
